@@ -34,7 +34,13 @@ def _res(code: t.Any = L.LDAPResultCode.SUCCESS) -> t.Any:
     return L.LDAPResult(code, "", "", None)
 
 
-RESP_KINDS = ["BindResp-ok", "BindResp-sasl", "BindResp-bad", "Entry", "Ref", "Done", "ExtResp", "Notice"]
+RESP_KINDS = ["BindResp-ok", "BindResp-sasl", "BindResp-bad", "Entry", "Ref", "Done", "ExtResp", "Notice",
+              # decorated variants: what a peer may attach must not change how the message is correlated
+              "Done-paged", "ExtResp-named", "Entry-ctl"]
+
+
+def base_kind(name: str) -> str:
+    return {"Done-paged": "Done", "ExtResp-named": "ExtResp", "Entry-ctl": "Entry"}.get(name, name)
 REQ_KINDS = ["BindReq", "SearchReq", "ExtReq", "Unbind"]
 
 
@@ -56,6 +62,12 @@ def make_msg(kind: str, i: int) -> t.Any:
         return L.ExtendedResponse(i, [], _res(), None, None)
     if kind == "Notice":
         return L.ExtendedResponse(i, [], _res(C.UNAVAILABLE), NOTICE, None)
+    if kind == "Done-paged":
+        return L.SearchResultDone(i, [L.PagedResultControl(False, 0, b"more-pages-cookie")], _res())
+    if kind == "ExtResp-named":
+        return L.ExtendedResponse(i, [], _res(), "1.3.6.1.4.1.1466.20037", b"v")
+    if kind == "Entry-ctl":
+        return L.SearchResultEntry(i, [L.LDAPControl("1.2.3", True, b"x")], "cn=e", [L.PartialAttribute("a", [b"v"])])
     if kind == "BindReq":
         return L.BindRequest(i, [], 3, "", L.SimpleCredential(""))
     if kind == "SearchReq":
@@ -240,6 +252,7 @@ def _client_expect(inprog: t.Dict[int, str], msgs: t.List[t.Tuple[str, int]]) ->
     """Documented fate of a delivery to a client: (expected accepted? / None = the property is silent, ghost after, why)."""
     g = dict(inprog)
     for name, i in msgs:
+        name = base_kind(name)
         if name in REQ_KINDS:
             return False, g, f"{name} is a request-type message"
         if name == "Notice":
@@ -405,6 +418,7 @@ def monitors(role: str, g: Ghost, ev: Event, rec: Rec, viol: t.List[t.Tuple[str,
                 if exp is None:
                     # replay the accepted sequence with 'unk' kept sticky
                     for n, j in msgs:
+                        n = base_kind(n)
                         st = inprog.get(j)
                         if st == "search":
                             if n == "Done":
@@ -460,6 +474,7 @@ class Result:
         self.outcomes: t.Set[t.Any] = set()
         self.sample_paths: t.List[t.Any] = []
         self.unexpanded = 0
+        self.capped = False
 
 
 _X: t.Dict[str, t.Any] = {}
@@ -478,13 +493,19 @@ def _expand(chunk: t.Tuple[int, int]) -> t.List[t.Any]:
                 continue
             s2, g2, rec, viol = step(role, s, g, ev, kmax)
             outcome = (ev[0], ev[1], rec.pre.name, rec.post.name, type(rec.exc).__name__ if rec.exc else "ok", bool(rec.out))
-            expand = all((p, k) in known for p, k, _w in viol)
+            expand = all((p, k) in known or (_X["prop"] is not None and p != _X["prop"]) for p, k, _w in viol)
             key = (A.freeze(s2), g2)
             out.append((idx, ev, key, s2 if expand else None, g2, viol, outcome))
     return out
 
 
-def explore(role: str, kmax: int, known: t.Set[t.Tuple[str, str]], seed: int = 0, parallel: bool = False) -> Result:
+STATE_CAP = 60000  # ~30x the state count of the pinned tree at the thorough bound: a space that keeps growing is cut here
+
+
+def explore(role: str, kmax: int, known: t.Set[t.Tuple[str, str]], seed: int = 0, parallel: bool = False, prop: t.Optional[str] = None) -> Result:
+    """``prop``: the property whose check is running.  An edge that violates one of *its* monitors is not expanded
+    (its target lies outside the specified behaviour) unless the violation is a listed known finding; violations of
+    other properties' monitors do not stop the search (each check must find what it can on its own)."""
     res = Result()
     evs = events(role, kmax)
     init = new_session(role)
@@ -495,8 +516,11 @@ def explore(role: str, kmax: int, known: t.Set[t.Tuple[str, str]], seed: int = 0
     probe = [e for e in evs if e[0] == "call"][:3] + [e for e in evs if e[0] == "recv"][:3] + [e for e in evs if e[0] == "recvpair"][:2]
     assert run_history(role, probe, kmax)[1] == run_history(role, probe, kmax)[1], "replay is not deterministic"
     while frontier:
+        if res.states > STATE_CAP:
+            res.capped = True  # reported in the evidence (exhaustive = false); violations found so far still count
+            break
         res.levels += 1
-        _X.update(role=role, kmax=kmax, events=evs, known=known, frontier=frontier)
+        _X.update(role=role, kmax=kmax, events=evs, known=known, frontier=frontier, prop=prop)
         chunks = par.split(len(frontier), (par.ncpu() * 4) if parallel and len(frontier) > 64 else 1)
         results = par.pmap(_expand, chunks, seed) if len(chunks) > 1 else [_expand(c) for c in chunks]
         nxt: t.List[t.Any] = []
@@ -569,6 +593,10 @@ def report(ctx: t.Any, prop: str, role: str, kmax: int, res: Result) -> None:
     ctx.add(f"{role}_states_K{kmax}", res.states)
     ctx.add(f"{role}_transitions_K{kmax}", res.transitions)
     ctx.add(f"{role}_violating_edges_not_expanded", res.unexpanded)
+    if res.capped:
+        ctx.exhaustive = False
+        ctx.note(f"{role}_state_cap_hit", f"search stopped after {res.states} states (cap {STATE_CAP}): the reachable space did not close; everything below BFS level {res.levels} was covered")
+        print(f"INCOMPLETE: {role} search stopped at the state cap ({res.states} states); see evidence")
     ctx.distinct |= {(role,) + o for o in res.outcomes}
     for (p, k), e in res.viol.items():
         if p == prop:
